@@ -70,3 +70,20 @@ Print Assumptions C06_reciprocal.
 Print Assumptions C06_monotone_map.
 Print Assumptions C06_rsub_law.
 Print Assumptions C06_stepwise_ops_are_translated.
+
+(* SAMPLE FORM (Proofs/Compose*.v): "transforms every focal interval by the same map" read on samples - whatever sample the operand bounds,
+   the result (when there is one) is well formed and bounds the sample transformed value by value; increasing maps keep the order of the
+   bounds, decreasing maps exchange and re-order them. *)
+From PUN Require Import Proofs.Compose Proofs.ComposeOps Proofs.ComposeAll.
+Theorem C06_number_op_sound steps plo phi (f : R -> R -> R) c (p : list R * list R) (u : list R) r :
+  ((forall a b, a <= b -> f a c <= f b c) \/ (forall a b, a <= b -> f b c <= f a c)) ->
+  snd_ steps p u -> pnum RN steps plo phi f p c = Ok r -> snd_ steps r (map (fun a => f a c) u).
+Proof. intros [H|H]; [exact (pnum_sound_incr steps plo phi f c p u r H)|exact (pnum_sound_anti steps plo phi f c p u r H)]. Qed.
+Theorem C06_negation_sound steps plo phi (p : list R * list R) (u : list R) r :
+  snd_ steps p u -> pneg RN steps plo phi p = Ok r -> snd_ steps r (map Ropp u).
+Proof. exact (pneg_sound steps plo phi p u r). Qed.
+Theorem C06_reciprocal_sound steps plo phi (p : list R * list R) (u : list R) r : (0 < steps)%nat ->
+  snd_ steps p u -> precip RN steps plo phi p = Ok r -> snd_ steps r (map (fun a => 1 / a) u).
+Proof. intros. eapply precip_sound; eauto. Qed.
+Print Assumptions C06_number_op_sound.
+Print Assumptions C06_reciprocal_sound.
